@@ -250,8 +250,11 @@ func (s *sampler[R]) Next() (int, int) {
 		s.i--
 		s.first = false
 	}
-	skip := math.Floor(math.Log(s.r.Float64()) / math.Log(1-s.w))
-	if math.IsInf(skip, 0) || math.IsNaN(skip) {
+	// Log1p(-w), not Log(1-w): once w is below 2^-53 (about 2^53 items in) 1-w rounds to 1, its logarithm to
+	// 0, and every later item would be skipped.
+	skip := math.Floor(math.Log(s.r.Float64()) / math.Log1p(-s.w))
+	if math.IsInf(skip, 0) || math.IsNaN(skip) || skip >= float64(math.MaxInt-s.i)-2048 {
+		// (also when s.i+skip+1 would not fit an int: the 2048 covers the rounding of the conversion)
 		return math.MaxInt, 0
 	}
 	s.i += int(skip) + 1
